@@ -499,6 +499,12 @@ def r9_paid_before_run(ctx):
         return
     gates = [(e, c, bi) for e, c, bi in q.pick_atoms(impl, lambda c: c.startswith("Lt(") and ".fee" in c and "base_fee(" in c) if c.startswith("Lt(") and ".fee, " in c and "base_fee(" in c]
     if not gates:
+        # "missing" needs the demonstrable absence of a minimum-fee computation from the function and everything nested in it: a gate spelled with adapters
+        # (`txx.iter().map(|tx| (tx.fee, minimum_fee(..))).find(|(fee, min)| fee < min)`) computes and compares inside closures, which is not read here
+        nested_fee = [n for n in ctx.prog.all_nested(impl) if n is not impl and (q.calls_to(n, "base_fee") or q.calls_to(n, "minimum_fee"))]
+        if nested_fee:
+            r.undecided("paid-before-run/missing", "no fee comparison in the body of apply_tx_batch_impl itself, but the minimum fee is computed in %s: a gate made of iterator adapters is not read" % nested_fee[0].nname.split("::")[-1], impl.where(work[0][0]))
+            return
         r.violation("paid-before-run/missing", "apply_tx_batch_impl runs check_tx_validity (covenant execution) without having compared any transaction's fee with its minimum fee: "
                     "covenants of transactions that pay nothing are executed to the end before create_next_state rejects them", impl.where(work[0][0]))
         return
